@@ -24,16 +24,19 @@ type c49Rig struct {
 	resp    []hdr             // headers the backend answers with
 	got     chan *ref.Message // requests as received by the backend
 	gen     int
+	retries int // repeated attempts after a 5xx without forwarding
+	total   int // end-to-end exchanges asked for
+	rig5xx  int // ... of which the rig itself could not forward even without rules
 }
 
-const c49E2EWait = 15 * time.Second
+const c49E2EWait = 45 * time.Second
 
 func c49StartRig() (*c49Rig, error) {
 	r := &c49Rig{got: make(chan *ref.Message, 64)}
 	b, err := sys.NewBackend("b0", func(bc *sys.BackendConn) {
 		off := 0
 		for {
-			m, err := bc.ReadRequest(off, 60*time.Second)
+			m, err := bc.ReadRequest(off, 30*time.Minute) // never close an idle keep-alive connection under bfe's feet
 			if err != nil {
 				return
 			}
@@ -68,6 +71,9 @@ func c49StartRig() (*c49Rig, error) {
 		Rules:          map[string][]sys.Rule{"p": {{Cond: "default_t()", Cluster: "cluster_x"}}},
 		Clusters:       []sys.Cluster{sys.OneBackendCluster("cluster_x", b.Port)},
 	}
+	// generous time budgets: the rig shares the machine with 15 sibling shards and other jobs
+	data.Clusters[0].TimeoutConnSrvMs = 10000
+	data.Clusters[0].TimeoutResponseHeaderMs = 30000
 	rig, err := sys.Start(sys.Options{
 		Modules: []string{"mod_redirect", "mod_rewrite", "mod_header"},
 		Files: map[string]string{
@@ -122,6 +128,53 @@ func (r *c49Rig) load(c *c49Case) (error, []string) {
 		}
 	}
 	return err, culprits
+}
+
+func is5xxNotForwarded(x c49Exchange) bool {
+	return !x.timeout && x.msg == nil && x.status >= 500
+}
+
+// exchangeRobust is exchange with protection against the rig's own time budgets
+// (backend connect / response-header timeouts of the in-process BFE when the machine
+// is overloaded show up as a 5xx without the backend being contacted). A 5xx answer
+// without forwarding is retried twice on fresh connections; if it persists, the same
+// request is sent with all three rule sets emptied: if even that is not forwarded the
+// rig is in trouble (rigTrouble=true, the case is inconclusive); otherwise the case's
+// rules are loaded again and the request gets two more attempts, and only a result
+// that still is a 5xx is handed back for judgement.
+func (r *c49Rig) exchangeRobust(c *c49Case) (x c49Exchange, rigTrouble bool) {
+	r.total++
+	for attempt := 0; attempt < 3; attempt++ {
+		if attempt > 0 {
+			r.retries++
+			time.Sleep(time.Duration(attempt) * 400 * time.Millisecond)
+		}
+		if x = r.exchange(c); !is5xxNotForwarded(x) {
+			return x, false
+		}
+	}
+	for _, m := range []string{"rewrite", "header", "redirect"} {
+		if err := r.reloadOne(m, emptyRules); err != nil {
+			r.rig5xx++
+			return x, true
+		}
+	}
+	ctl := r.exchange(c)
+	if err, _ := r.load(c); err != nil {
+		r.rig5xx++
+		return x, true
+	}
+	if ctl.timeout || ctl.msg == nil {
+		r.rig5xx++
+		return x, true
+	}
+	for attempt := 0; attempt < 2; attempt++ {
+		time.Sleep(time.Second)
+		if x = r.exchange(c); !is5xxNotForwarded(x) {
+			return x, false
+		}
+	}
+	return x, false
 }
 
 type c49Exchange struct {
